@@ -172,6 +172,11 @@ FirstBad(t, objs, steps, obs, k) ==
   ELSE FirstBad(t, Apply(t, objs, steps[k]), steps, obs, k + 1)
 
 InitObjs(n) == [i \in 1..n |-> EmptyMsg]
+\* Totality.  What an object holds after a failed decode is unspecified (Dirty), and the steps that would read it are
+\* skipped; but an object it remains: every operation on it must RETURN.  The harness runs Clone, Size, Marshal,
+\* Range/Get, Equal, Unmarshal{Merge} and Reset on every object the history leaves dirty and reports a panic in "chk"
+\* together with the protoreflect-contract findings on the clean ones; "panic" is a panic of a step itself.  (F27: the
+\* lazily decoding path left messages behind on which all of these panicked.)
 HistoryBad(e) == IF "panic" \in DOMAIN e.out THEN -1
                  ELSE IF e.out.chk # "" THEN -2
                  ELSE FirstBad(e.type, InitObjs(3), e.steps, e.out.obs, 1)
